@@ -69,12 +69,12 @@ Print Assumptions indices_map_back.
 
 (* Selection: whenever Python/numpy semantics select the rows l (sel_spec), the result is a grid of the same class
    with exactly those points and weights, in that order, and the same domain / lattice.  Preconditions: the class's
-   constructor accepts the rows (extra_ok: non-empty where a domain / lattice must be re-validated, rows inside the
+   constructor accepts the rows (extra_ok: non-empty where a domain / a non-empty lattice must be re-validated, rows inside the
    domain), and NumPy integers need the corrected isinstance test. *)
 Theorem getitem_spec : forall cfg k g ix l,
   selectable k -> sel_spec (length (s_wts g)) ix = Some l ->
   (forall i, ix = INpInt i -> npint_flag cfg k = true) ->
-  extra_ok k g l ->
+  extra_ok cfg k g l ->
   getitem cfg k g ix =
     OSel k (map (fun i => nth i (public k g) []) l) (map (fun i => nth i (s_wts g) 0) l) (carried k g).
 Proof. exact getitem_spec_lemma. Qed.
@@ -171,3 +171,13 @@ Theorem getitem_npint_refuted : forall cfg k g i j,
   getitem cfg k g (INpInt i) = OErr (match k with CGrid => EType | _ => EValue end).
 Proof. exact getitem_npint_refuted_lemma. Qed.
 Print Assumptions getitem_npint_refuted.
+
+(* an empty selection on a PeriodicGrid raises ValueError: always when there are lattice vectors (the constructor cannot
+   build an empty periodic grid), and on the pinned source also without lattice vectors, where the grid is documented to
+   behave like the plain Grid (whose empty selection is the empty grid) *)
+Theorem periodic_empty_refuted : forall cfg g ix,
+  sel_spec (length (s_wts g)) ix = Some [] ->
+  (periodic_empty_ok cfg = false \/ ~ no_lattice g) ->
+  getitem cfg CPeriodic g ix = OErr EValue.
+Proof. exact periodic_empty_refuted_lemma. Qed.
+Print Assumptions periodic_empty_refuted.
